@@ -3,6 +3,9 @@ rig/place_and_route/allocate/greedy.py (+ allocate/utils.py, the two constraint
 classes and Machine.__getitem__) with the Lean model RigModel/Model/C05.lean, and
 the Lean specification `Valid` / `Feasible` evaluated on the implementation's own
 allocations and exceptions (property oracle)."""
+import glob
+import json
+import os
 import re
 import signal
 
@@ -23,9 +26,11 @@ CLAIM = dict(
           "adjacent, empty, outside the range): every allocation the allocator model returns gives each placed "
           "vertex exactly one range per requested resource, of exactly the requested size, inside [0, capacity of "
           "its chip], starting on the alignment, overlapping no global reservation and no reservation of its chip, "
-          "and disjoint from the ranges of every other vertex on that chip; the only error on a documented-domain "
+          "and disjoint from the ranges of every other vertex on that chip (and no vertex/resource pair gets two "
+          "ranges); the only error on a documented-domain "
           "input is InsufficientResourceError (the proposal loop provably terminates); and with alignment 1 and "
-          "reservations only at the two ends of the range a placement whose demand fits between them always "
+          "reservations only at the two ends of the range a placement whose demand fits between them - in particular "
+          "one that is feasible by the placers' own accounting (capacity minus reserved magnitudes) - always "
           "succeeds.  Tied to greedy.py by exact correspondence (allocations, error kind, failing resource and "
           "chip) on thousands of generated problems per run with the Lean predicate `Valid` run on every "
           "allocation the implementation returns."),
@@ -35,7 +40,8 @@ CLAIM = dict(
           "alignments >= 1, resources known to the machine, vertices on live chips."),
     technique="Lean 4 theorems over a hand-written model + differential correspondence + Lean spec as oracle")
 
-THEOREMS = ["overlaps_iff_common", "alloc_sound", "alloc_only_failure", "alloc_complete"]
+THEOREMS = ["overlaps_iff_common", "alloc_sound", "alloc_sound_range", "alloc_unique", "alloc_only_failure",
+            "alloc_complete", "alloc_complete_window", "alloc_complete_placer_budget"]
 
 RULE = ("machines 1-3 x 1-3 with 1-3 resources, per-chip exceptions and dead chips; 1-6 used chips, 0-12 vertices "
         "per chip placed in shuffled (interleaved) order, demands incl. 0 and absent resources; up to 6 global and "
@@ -535,6 +541,12 @@ def run(ctx):
     n = ctx.scale(5000, 200000)
     if ctx.extended:
         n = max(n * 4, 40000)
+    corpus = []
+    here = os.path.dirname(os.path.dirname(os.path.abspath(__file__)))
+    for f in sorted(glob.glob(os.path.join(here, "corpus", "C05", "*.json"))):
+        corpus.append(json.load(open(f))["case"])
+    if corpus:
+        eval_cases(ctx, corpus)
     utils_cases(ctx, ctx.scale(500, 5000))
     done = 0
     while done < n:
